@@ -50,6 +50,11 @@ def pool():
                                                       'modified': '2020-01-01T00:00:00.000Z', 'name': 'c'}))
     p.append(('unregistered custom without modified (stored as a plain file next to versioned ones)', {'type': 'x-vf-unreg', 'spec_version': '2.1', 'id': 'x-vf-unreg--' + U(9),
                                                                                                       'created': '2020-01-01T00:00:00.000Z', 'foo': 3}))
+    # type names of which another stored type's name is a proper prefix (directory names on disk, whitelists / blacklists of the search shortcuts)
+    p.append(('malware (prefix of malware-analysis)', {'type': 'malware', 'spec_version': '2.1', 'id': 'malware--' + U(10), 'created': '2020-01-01T00:00:00.000Z', 'modified': '2020-01-01T00:00:00.000Z',
+                                                       'name': 'm', 'is_family': False}))
+    p.append(('malware-analysis', {'type': 'malware-analysis', 'spec_version': '2.1', 'id': 'malware-analysis--' + U(11), 'created': '2020-01-01T00:00:00.000Z', 'modified': '2020-01-01T00:00:00.000Z',
+                                   'product': 'p', 'result': 'benign'}))
     return p
 
 
